@@ -783,6 +783,12 @@ class DavSession:
                            [(FOREIGN_TOKENS[self.foreign_i % len(FOREIGN_TOKENS)], "foreign")] + \
                            [(t, "foreign") for t in sib[-1:]]:
                 sync.append(self._sync_report(c, path, base_url, tok, tk, members))
+            # the same for another choice of requested properties (none of them depends on the
+            # member's content): the newest token this collection issued before, and the empty one
+            variant = [("getcontenttype",), ("resourcetype",), (), ("getcontenttype", "displayname")][self.foreign_i % 4]
+            older = [t for t in reversed(pick) if t != cur_token]
+            for tok, tk in ([(older[0], "issued")] if older else []) + ([("", "empty")] if self.foreign_i % 2 else []):
+                sync.append(self._sync_report(c, path, base_url, tok, tk, members, props=variant))
             self.foreign_i += 1
         typed_fallback = self._typed(c)
         gitinfo = self._audit_git(c, members) if self.audit_git else \
@@ -841,9 +847,11 @@ class DavSession:
                 if which == "mg" or wanted:
                     m["views"].append(0)    # a live member missing from the report
 
-    def _sync_report(self, c, path, base_url, tok, tk, members):
+    def _sync_report(self, c, path, base_url, tok, tk, members, props=("getetag",)):
+        """props without getetag: which members a report names must not depend on the properties
+        asked for - the etag column is then filled from the audit (names are what is judged)."""
         w = self.world
-        r = w.request("REPORT", path, [("Content-Type", "text/xml")], gamma.sync_body(tok))
+        r = w.request("REPORT", path, [("Content-Type", "text/xml")], gamma.sync_body(tok, props))
         rec = {"t": self.T(tok) if tok else 0, "kind": tk, "ok": False, "changed": {},
                "removed": [], "token": 0, "extra": 0}
         if r.status != 207:
@@ -869,6 +877,8 @@ class DavSession:
                 if n in rec["changed"]:
                     rec["extra"] += 1
                 rec["changed"][n] = self.E(et) if et else 0
+                if "getetag" not in props and n in members:
+                    rec["changed"][n] = members[n]["e"]
         rec["removed"].sort()
         return rec
 
